@@ -1033,14 +1033,21 @@ fn main() {
                         let r = s.span().byte_range();
                         let t = stmt_text_no_attrs(&src.text, s, r.start, r.end);
                         if a.is_none() && anchor_match(t, from) {
-                            a = Some(k);
+                            // `>anchor` = the statement following the matching one
+                            a = Some(if from.starts_with('>') { k + 1 } else { k });
+                            if from.starts_with('>') {
+                                continue;
+                            }
                         }
                         if a.is_some() && b.is_none() && anchor_match(t, to) {
                             b = Some(k);
                         }
                     }
                     let a = a.unwrap();
-                    let b = b.unwrap_or_else(|| die(&format!("{ctx}: @@to anchor not found after @@from: {to}")));
+                    if a >= blk.stmts.len() {
+                        die(&format!("{ctx}: no statement follows the @@from anchor: {from}"));
+                    }
+                    let b = if d.to.is_none() { a } else { b.unwrap_or_else(|| die(&format!("{ctx}: @@to anchor not found after @@from: {to}"))) };
                     for s in &blk.stmts[a..=b] {
                         ed.visit_stmt(s);
                     }
@@ -1211,6 +1218,7 @@ fn check_used(ed: &Ed, d: &FnDir, ctx: &str) {
 
 /// anchor `abc` = statement text starts with `abc`; anchor `~abc` = statement text contains `abc`
 fn anchor_match(text: &str, anchor: &str) -> bool {
+    let anchor = anchor.strip_prefix('>').unwrap_or(anchor);
     match anchor.strip_prefix('~') {
         Some(a) => text.contains(a.trim()),
         None => text.starts_with(anchor),
